@@ -174,6 +174,7 @@ theorem writer_functions : writers =
     list and breaks the theorem. -/
 theorem track_late_failures : late "cmd/goat.trackCmd" =
     [("pkg/maininfo.MainPackageInfo.ApplyMainEntry", "go/parser.ParseFile"),
+     ("pkg/maininfo.MainPackageInfo.ApplyMainEntry", "os.ReadFile"),
      ("pkg/maininfo.MainPackageInfo.ApplyMainEntry", "os.Stat"),
      ("pkg/utils.AddCodes", "go/printer.Config.Fprint"),
      ("pkg/utils.AddImport", "fmt.Errorf (new error)"),
@@ -186,6 +187,7 @@ theorem track_late_failures : late "cmd/goat.trackCmd" =
 theorem patch_late_failures : late "cmd/goat.patchCmd" =
     [("pkg/config.GetDataType", "fmt.Errorf (new error)"),
      ("pkg/maininfo.MainPackageInfo.ApplyMainEntry", "go/parser.ParseFile"),
+     ("pkg/maininfo.MainPackageInfo.ApplyMainEntry", "os.ReadFile"),
      ("pkg/maininfo.MainPackageInfo.ApplyMainEntry", "os.Stat"),
      ("pkg/tracking/increment.Values.Render", "text/template.Template.Parse"),
      ("pkg/tracking/increment.Values.Render", "text/template.Template.Execute"),
